@@ -298,15 +298,17 @@ def c02d(ctx):
 
     def steps(fn):
         out = []
+        gg = fn.cfg
         for st in fn.walk():
             if isinstance(st, ast.AugAssign) and unparse(st.target) == 'z':
-                iff = enclosing(st, ast.If)
-                out.append((type(st.op).__name__, const_value(st.value), unparse(iff.test) if iff is not None else None, st))
+                # the guard in canonical form: the atoms (with polarity) that hold on every path to the statement
+                atoms = sorted({(at.text if p else 'not ' + at.text) for at, p in gg.guards_of(gg.node_of[id(st)]) if '_skip_' in at.text or 'use_profiles' in at.text})
+                out.append((type(st.op).__name__, const_value(st.value), ' and '.join(atoms) if atoms else None, st))
         return sorted(out, key=lambda t: t[3].lineno)
     si, se = steps(itc), steps(etc)
     gi = {t[2]: (t[0], t[1]) for t in si}
     ge = {t[2]: (t[0], t[1]) for t in se}
-    ok = set(gi) == set(ge) == {'use_profiles and self._skip_first_level', 'self._skip_odd_level'}
+    ok = set(gi) == set(ge) == {'self._skip_first_level and use_profiles', 'self._skip_odd_level'}
     ctx.check(ok, 'TileServiceGrid:level-guards-agree', 'internal_tile_coord and external_tile_coord adjust the level under the same two guards', itc,
               fail='level mapping guards differ: internal %s, external %s' % (sorted(gi), sorted(ge)))
     inv = {('Add', 1): ('Sub', 1), ('Mult', 2): ('FloorDiv', 2)}
@@ -317,7 +319,7 @@ def c02d(ctx):
     if ok2:
         oi = [t[2] for t in si]
         oe = [t[2] for t in se]
-        ctx.check(oi == ['use_profiles and self._skip_first_level', 'self._skip_odd_level'], 'TileServiceGrid:internal-order',
+        ctx.check(oi == ['self._skip_first_level and use_profiles', 'self._skip_odd_level'], 'TileServiceGrid:internal-order',
                   'internal level = (z + first-level skip) * odd-level factor', itc)
     # result goes through limit_tile
     g = itc.cfg
